@@ -115,7 +115,8 @@ fn rfunction_case(rng: &mut Rng) -> Case {
     let n = rng.below(5);
     for i in 0..n {
         if i > 0 { args.push(TT::P(',')); }
-        args.push(TT::I(format!("arg{i}")));
+        // argument names are the caller's: written back exactly, whatever their spelling
+        args.push(TT::I(["arg0", "x_1", "_ctx", "camelCase", "a", "count_2x"][(i + n) % 6].to_string().replace("arg0", &format!("arg{i}"))));
         args.push(TT::P(':'));
         if rng.chance(1, 3) { args.push(TT::P('#')); args.push(TT::I("t".into())); } else { args.push(TT::I(["i32", "String", "Foo", "bool"][rng.below(4)].into())); }
     }
